@@ -1433,6 +1433,10 @@ class Interp(object):
                 return f.fn(*args, **kwargs)
             except SymbolicBool as e:
                 raise Unsupported("builtin %s needs a concrete truth value: %s" % (f.name, e))
+            except TypeError as e:
+                if "positional argument" in str(e) or "unexpected keyword" in str(e):
+                    raise PyRaise(mk_exc("TypeError", str(e)))
+                raise
         if isinstance(f, ExcClass):
             return ExcV(f, tuple(args))
         if isinstance(f, TypeTok):
